@@ -209,7 +209,7 @@ def gt_flat(g) -> list:
 
 
 def gt_pf28(g) -> bool:
-    """class of PF-28: a chain in which an earlier transformation CREATES (ParallelChannelTransformation key,
+    """class of PF-C05e: a chain in which an earlier transformation CREATES (ParallelChannelTransformation key,
     LinearTransformation output) an input channel of a later LinearTransformation; sampling a channel that does
     not depend on all inputs of that transformation then raises KeyError"""
     created: set = set()
@@ -758,7 +758,7 @@ def compare_option(base: dict, o: dict, expect: Optional[list]) -> List[Finding]
             if isinstance(a, str):
                 known = None
                 if a == 'error:key_error':
-                    known = 'PF-28' if o.get('pf28') else ('PF-11' if o.get('pf11_any') else None)
+                    known = 'PF-C05e' if o.get('pf28') else ('PF-11' if o.get('pf11_any') else None)
                 out.append(Finding('sample-raises', 'with %s sampling %s raises %s' % (tag, ch, a), channel=ch, known=known))
                 break
             known = 'PF-11' if ch in bad11 else ('PF-04-junction' if in04 else None)
@@ -1183,7 +1183,7 @@ def build_helper(kind: str, rng, depth: int):
             cnt = 'kk'
             cnt_expr = ExpressionScalar('kk')
         if style == 'neg' and shape != 'other':
-            # make the inner count negative as well in half of the cases (class of PF-27)
+            # make the inner count negative as well in half of the cases (class of PF-C05d)
             for name in list(inner.repetition_count.variables):
                 if name in values and rng.random() < 0.5:
                     values[name] = -abs(int(values[name])) - 1
@@ -1513,8 +1513,8 @@ def assess_helper(ctx, rec: dict, reply, count=True) -> List[Finding]:
     if 'helper_raises' in rec:
         f = Finding('helper-raises', '%s raises %s although the explicit nesting can be built (%s)'
                     % (kind, rec['helper_raises'], meta),
-                    known='PF-26' if (kind == 'withRepetition' and meta.get('style') == 'str' and meta.get('shape') in ('rep', 'rep_cons'))
-                    else ('PF-29' if (kind == 'withMapping' and meta.get('shape') == 'chained_drop') else None))
+                    known='PF-C05a' if (kind == 'withRepetition' and meta.get('style') == 'str' and meta.get('shape') in ('rep', 'rep_cons'))
+                    else ('PF-C05b' if (kind == 'withMapping' and meta.get('shape') == 'chained_drop') else None))
         if count:
             ctx.case('helper-raises:' + rec['explicit_sx'][:300], nontrivial=True)
         return _filter_known(ctx, [f], known_ids, count)
@@ -1531,7 +1531,7 @@ def assess_helper(ctx, rec: dict, reply, count=True) -> List[Finding]:
         out.append(Finding('helper-status', '%s: the helper gives %s%s, the explicit nesting %s%s (params %s)'
                            % (tag, H['status'], ':' + H.get('error', '') if H['status'] == 'error' else '',
                               E['status'], ':' + E.get('error', '') if E['status'] == 'error' else '', rec['params']),
-                           known='PF-27' if neg_rep else ('PF-30' if (kind == 'withMapping' and meta.get('shape') == 'chained_cons'
+                           known='PF-C05d' if neg_rep else ('PF-C05c' if (kind == 'withMapping' and meta.get('shape') == 'chained_cons'
                                                                     and E['status'] == 'error' and E.get('error') == 'constraint_violation') else None)))
     elif H['status'] == 'ok':
         if H['dur'] != E['dur']:
@@ -1576,11 +1576,11 @@ def assess_helper(ctx, rec: dict, reply, count=True) -> List[Finding]:
                                    known=known, channel=v.get('channel')))
         elif H['status'] == 'empty' and spec_e['status'] == 'ok':
             out.append(Finding('helper-spec-empty', '%s: the helper plays nothing, the explicit nesting denotes a pulse of '
-                               'duration %s' % (tag, spec_e['dur']), known='PF-27' if neg_rep else None))
+                               'duration %s' % (tag, spec_e['dur']), known='PF-C05d' if neg_rep else None))
         elif H['status'] == 'ok' and spec_e['status'] == 'empty':
             out.append(Finding('helper-spec-empty', '%s: the helper plays a program of duration %s, the explicit nesting '
                                'denotes the empty pulse (params %s)' % (tag, H['dur'], rec['params']),
-                               known='PF-27' if neg_rep else None))
+                               known='PF-C05d' if neg_rep else None))
         # the Lean helper function models the real helper (compared on the observables of denote)
         if spec_h['status'] in ('ok', 'empty') and H['status'] in ('ok', 'empty') and not out:
             same = (spec_h['status'] == H['status']) and (spec_h['status'] == 'empty' or
